@@ -116,6 +116,16 @@ def gen_program(rng, cid):
             prog.append(("set", ("SET %s = %s" % (v2, lit)).encode().join([b"\x03", b""]), "var set V|S|%s|%s" % (v2, tok), "SET %s = %s" % (v2, lit)))
             prog.append(("set", ("SET %s = @@%s" % (v1, v2)).encode().join([b"\x03", b""]), "var set R|%s|%s" % (v1, v2), "SET %s = @@%s" % (v1, v2)))
             prog.append(("get", b"\x03" + ("SELECT @@%s" % v1).encode(), "var get " + v1, v1, mine))
+        elif r < 0.335:
+            # the same keyword in another letter case: ON / OFF / DEFAULT are values, on / off / default are rejected as
+            # complex expressions; what one connection sent must not change what another one's spelling means
+            var = rng.choice(["autocommit", "sql_auto_is_null", "transaction_read_only"])
+            kw, tok = rng.choice([("OFF", "F"), ("ON", "T"), ("DEFAULT", "D")])
+            if cid % 2:
+                kw, tok = kw.lower(), "X"
+            prog.append(("set", ("SET %s = %s" % (var, kw)).encode().join([b"\x03", b""]), "var set V|S|%s|%s" % (var, tok), "SET %s = %s" % (var, kw),
+                         "err:notSupported" if tok == "X" else "ok"))
+            prog.append(("get", b"\x03" + ("SELECT @@%s" % var).encode(), "var get " + var, var))
         elif r < 0.36:
             nm = c14.gen_name(rng)
             prog.append(("get", b"\x03" + ("SELECT @@%s" % nm).encode(), "var get " + nm, nm))
@@ -360,6 +370,11 @@ async def case(chk, rng, idx):
                 # by construction this connection has just copied its own value of the referenced variable
                 chk.fail("a connection read a variable value that stems from another connection's state",
                          dict(desc, connection=i, statement="SELECT @@%s after SET ... = @@..." % step[3]), dict(got=got, own_value=step[4]))
+            if kind == "set" and len(step) > 4 and got != step[4]:
+                # the meaning of this statement is fixed by its own text (a keyword in exactly this letter case); alone the
+                # connection gets step[4]
+                chk.fail("the outcome of a statement depends on what other connections executed before",
+                         dict(desc, connection=i, statement=step[3]), dict(got=got, alone=step[4]))
             lines.append("@%d %s" % (idx * 8 + i + 1, step[2]))
             impl.append((step, got))
             descs.append(dict(desc, connection=i, step=(kind, step[3] if kind in ("set", "get") else step[2])))
